@@ -37,6 +37,7 @@ EMIT = [
     ["emit", "evo_wash", [], {"tips": [1, 2], "waste_location": [52, 2], "cleaner_location": [52, 1]}],
 ]
 NAMES = ["w.gwl", "W.GWL", "other.gwl", "w.txt", "w", "w.gwlx"]
+FOREIGN = b"C;written by somebody else\r\n" + b"A;X;;;1;;1.00;;;;\r\nD;X;;;2;;1.00;;;;\r\nW1;\r\n" * 8
 
 
 class Harness(cm.BaseA):
@@ -45,7 +46,7 @@ class Harness(cm.BaseA):
     rule = (
         "every history of <= depth core events followed by any one event of the full alphabet over {emit one record "
         "of each type, save(str/Path) under .gwl and non-.gwl names, __enter__, __exit__ with and without an "
-        "exception}; configurations: worklist with / without configured path x pre-existing file {absent, 3 bytes, "
+        "exception, another writer overwriting the file}; configurations: worklist with / without configured path x pre-existing file {absent, 3 bytes, "
         "5000 bytes} x {Evo, Fluent}; state = (record list, directory contents).  non-trivial = a file was written; "
         "distinct = distinct (records, directory contents)"
     )
@@ -79,14 +80,14 @@ class Harness(cm.BaseA):
         return {"wl": wl, "files": files}
 
     def core_events(self, W, config):
-        return EMIT[:4] + EMIT[10:11] + [["save", "w.gwl", "str"], ["save", "W.GWL", "Path"], ["save", "w.txt", "str"], ["save", "other.gwl", "str"], ["enter"], ["exit", False], ["exit", True]]
+        return EMIT[:4] + EMIT[10:11] + [["save", "w.gwl", "str"], ["save", "W.GWL", "Path"], ["save", "w.txt", "str"], ["save", "other.gwl", "str"], ["enter"], ["exit", False], ["exit", True], ["foreign", "w.gwl"]]
 
     def full_events(self, W, config):
         ev = list(EMIT if config["cls"] == "EvoWorklist" else EMIT[:-1])
         for n in NAMES:
             for t in ("str", "Path"):
                 ev.append(["save", n, t])
-        ev += [["enter"], ["exit", False], ["exit", True], ["with_raise"]]
+        ev += [["enter"], ["exit", False], ["exit", True], ["with_raise"], ["foreign", "w.gwl"], ["foreign", "other.gwl"]]
         if W.get("n", 0) > 1:
             return ev
         # long scripts (block-wise writers, buffer boundaries): only from states reached by <= 1 event
@@ -98,9 +99,18 @@ class Harness(cm.BaseA):
     def canon(self, W, config):
         import hashlib
 
-        return hashlib.blake2b(repr((list(W["wl"]), sorted(W["files"].items()))).encode(), digest_size=16).digest()
+        # besides what is observable now, which names this worklist object has saved to before and which of those
+        # were overwritten by somebody else afterwards (histories that differ in this are not merged)
+        return hashlib.blake2b(repr((list(W["wl"]), sorted(W["files"].items()), sorted(W.get("hist", [])))).encode(), digest_size=16).digest()
 
     def step(self, W, ev, config):
+        if ev[0] == "foreign":
+            # another program (or another worklist) overwrites / creates the file between two saves
+            W["files"] = dict(W["files"], **{ev[1]: FOREIGN})
+            W["n"] = W.get("n", 0) + 1
+            if f"saved:{ev[1]}" in W.get("hist", []):
+                W["hist"] = sorted(set(W["hist"]) | {f"foreign-after-save:{ev[1]}"})
+            return {"outcome": "foreign", "violations": []}
         d = workdir()
         for f in os.listdir(d):
             os.unlink(os.path.join(d, f))
@@ -180,6 +190,10 @@ class Harness(cm.BaseA):
                 V.append(("C17/trailing-line-break", f"{ev}: {name} ends with a line break"))
 
         others_unchanged = lambda keep: all(files.get(n) == b for n, b in oldfiles.items() if n != keep) and all(n in oldfiles or n == keep for n in files)
+        if ev[0] == "save" and exc is None:
+            W["hist"] = sorted(set(W.get("hist", [])) | {f"saved:{ev[1]}"})
+        if ev[0] in ("exit", "with_raise") and config["path"] and exc is None:
+            W["hist"] = sorted(set(W.get("hist", [])) | {f"saved:{config['path']}"})
         if ev[0] == "save":
             name = ev[1]
             valid = name.lower().endswith(".gwl")
